@@ -49,7 +49,7 @@ var (
 	reStates   = regexp.MustCompile(`^([0-9,]+) states generated, ([0-9,]+) distinct states found`)
 	reDepth    = regexp.MustCompile(`^The depth of the complete state graph search is ([0-9]+)`)
 	reInv      = regexp.MustCompile(`^Error: Invariant ([A-Za-z0-9_]+) is violated`)
-	reProp     = regexp.MustCompile(`^Error: (?:Action|Temporal) propert(?:y|ies) ([A-Za-z0-9_ ]*)(?:is|were) violated`)
+	reProp     = regexp.MustCompile(`^Error: (?:Action|Temporal) propert(?:y|ies) ([A-Za-z0-9_ ]*)(?:is|was|were) violated`)
 	reTagged   = regexp.MustCompile(`^<<"([A-Z]+)", (".*")>>$`)
 	reProgress = regexp.MustCompile(`^Progress\(`)
 )
